@@ -4,9 +4,16 @@ Correspondence: a scripted TLS upstream on loopback (byte-level scripts: send / 
 hold), the real `ProxyHandler` with its real `GeminiClient` behind the real `GeminiServerProtocol` on a
 fake downstream transport; what the downstream client receives is compared byte for byte with
 `Srv.render (Srv.proxyRespond …)` of the Lean model (driver op `relay`) and judged by a direct oracle.
+ * family `relay`   — one request at a time, real TLS upstream, wall-clock timeouts of 0.3-2 s;
+ * family `wired`   — the deployment as wired from a TOML file (`ServerConfig.get_location_router()`: several proxy
+   locations, possibly for one upstream, own or default timeouts) behind the real `GeminiServerProtocol`, several
+   requests per deployment (overlapping or not), scripted network on a virtual clock (`sim/proxy_world.py`): slow
+   upstreams and location timeouts around and above 30 s, answer times checked exactly;
+ * family `overlap` — real TLS again: several requests in flight through one `ProxyHandler`, bodies sent in pieces.
 """
 from __future__ import annotations
 
+import asyncio
 import hashlib
 import logging
 import random
@@ -29,13 +36,18 @@ ASSUMPTIONS = [
     "which except clause a given upstream behaviour ends in (Srv.Fault.cls) is the client's classification (C13); here it is checked against the real client by the scripted upstream, not proved",
     "a TCP FIN in the middle of a 2x body is indistinguishable from the end of the body (Gemini has no length field): the bytes received so far are the response",
     "'malformed' is judged by the oracle as: no CRLF, header longer than 2+1+1024 bytes, status not two ASCII digits in 10-69, meta not UTF-8 or containing a bare CR/LF, missing separator for a status below 40; a 4x-6x header without the separator may be relayed (with status/meta/body unchanged) or answered with 43",
+    "family wired: only the network is simulated (loop.create_connection replaced; connections with asyncio's transport semantics: close() is followed by connection_lost(None), nothing is delivered after close, "
+    "a raising data_received is a fatal error), time is the event loop's virtual clock; connects complete at once, so an answer is due when the upstream's response is complete or, for a stalling upstream, "
+    "exactly one location timeout after the request (2 ms tolerance); the documented default timeout of a location is 30 s; upstream events within 40 ms of the timeout's expiry are not generated; "
+    "the model is compared on one request of each case (`focus`), the oracle judges all of them",
+    "family overlap (real TLS, wall clock): the location timeout is 4 s, scripts last at most 0.8 s, faults are resets and closes only (no stalls), so no verdict depends on scheduling",
     "timing: every scripted upstream accepts the TCP connection at once, so the fetch — and with it the answer — is due one location timeout after the request; the oracle allows 0.45 s of scheduling margin, repeats a late case twice and reports it only when all three attempts are late; no answer within timeout + 2.5 s is a hang",
 ]
 LEVEL_TEXT = "partial"
 LEVEL_NOTE = ("proved over the models: the server side writes exactly the bytes of a well-formed upstream response (any status, media type, charset label; body as bytes), "
               "every failure class of the fetch becomes one well-formed 43, a 3x is returned after exactly one connection; "
               "tested, not proved: the mapping from real upstream behaviour (TLS, sockets, timers, the client's header parser and caps) to those classes")
-TECHNIQUE = "Lean 4 proofs (relay_verbatim, proxy_faults, proxy_no_follow over M-Render and the extracted except-clause table) + differential testing against a scripted loopback TLS upstream with fault injection, byte comparison downstream"
+TECHNIQUE = "Lean 4 proofs (relay_verbatim, proxy_faults, proxy_no_follow over M-Render and the extracted except-clause table) + differential testing against a scripted loopback TLS upstream with fault injection, byte comparison downstream; whole-deployment runs (TOML config -> router -> server protocol -> proxy -> scripted network) on a virtual clock with overlapping requests, slow upstreams and per-location timeouts"
 
 logging.disable(logging.CRITICAL)
 
@@ -562,7 +574,518 @@ class Relay(Family):
         return f"{sp[0]}:{st // 10}x:{cs if 20 <= st <= 29 else 'meta' + ('1k' if len(sp[2]) >= 1000 else '')}:{sz}" + (":redirect" if case["kind"] == "redirect" else "")
 
 
-FAMILIES = [Relay()]
+# ------------------------------------------------------------------------------------------------
+# family `wired`: the deployment as it is wired from a configuration file, on a virtual clock
+# ------------------------------------------------------------------------------------------------
+DEFAULT_TIMEOUT = 30.0     # documented default of a proxy location's `timeout`
+EPS = 0.002                # virtual seconds
+W_UPSTREAMS = ["gemini://up0.example:7000", "gemini://up0.example:7000/", "gemini://up1.example", "gemini://up1.example/base"]
+W_TIMEOUTS = [0.5, 1.0, 2.0, 4.0, 10.0, 29.0, None, 30.0, 31.0, 45.0, 60.0, 120.0]
+REASON_KIND = {"no-crlf": "closedMidHeader", "header-too-long": "headerTooLong", "status-spelling": "statusSpelling", "status-range": "statusOutOfRange",
+               "missing-space": "missingSeparator", "meta-bare-cr-lf": "metaControl", "bad-utf8": "headerNotUtf8", "body-over-cap": "bodyTooLarge"}
+
+
+def hx(t: float, b: bytes):
+    return [round(t, 4), "h", b.hex()]
+
+
+def fill(t: float, byte: int, count: int):
+    return [round(t, 4), "n", byte, count]
+
+
+def w_plan(rng, T: float):
+    """an upstream behaviour placed relative to the timeout T of the location that will serve it"""
+    r = rng.random()
+    st = rng.choice([20, 20, 20, 20, 21, 31, 30, 51, 10, 44, 62])
+    if 20 <= st <= 29:
+        meta = rng.choice(METAS_2X[:8] + ["application/octet-stream"])
+    else:
+        meta = {1: "Enter a value", 3: rng.choice(["gemini://decoy.example:7070/moved", "gemini://up0.example:7000/other", "/relative"]), 4: "slow down", 5: "Not found", 6: "certificate needed"}[st // 10]
+    header = f"{st} {meta}\r\n".encode()
+    size = rng.choice([0, 5, 40, 700, 5000, 20000, 70000, 262144]) if 20 <= st <= 29 else 0
+    # when the response is complete (or when the script ends)
+    inside = [0.0, 0.01 * T, 0.2 * T, 0.5 * T, 0.8 * T, 0.95 * T] + [x for x in (28.0, 29.5, 30.5, 33.0, 40.0, 44.0, 59.0, 100.0) if x < T - 0.04]
+    beyond = [1.05 * T, 1.5 * T, 3 * T] + [x for x in (30.5, 33.0, 40.0) if x > T + 0.04]
+    if r < 0.6:
+        te, end = rng.choice(inside), "close"           # complete and in time
+    elif r < 0.72:
+        te, end = rng.choice(beyond), "close"           # complete, but later than the location's timeout
+    elif r < 0.88:
+        te, end = rng.choice(inside), "hold"            # stalls after what it sent up to te
+    else:
+        te, end = rng.choice(inside), "reset"
+    def clear_of_T(t):
+        """no event at the very instant the timeout expires (either order of the two timers would be correct)"""
+        return round(t if abs(t - T) >= 0.04 else max(0.0, t - 0.07), 4)
+
+    te = clear_of_T(te)
+    # the bytes: header and body in a few pieces at times up to te
+    npieces = rng.choice([1, 2, 2, 3, 4])
+    times = sorted(min(te, clear_of_T(rng.choice([0.0, 0.1, 0.3, 0.5, 0.7, 0.9, 1.0]) * te)) for _ in range(npieces))
+    if end == "close" and rng.random() < 0.6:
+        times[-1] = te
+    if rng.random() < 0.05:
+        # a malformed header
+        bad = rng.choice([b"20", b"2x text/plain\r\nB", b"99 x\r\n", b"20 a\rb\r\nB", b"20 text/\xff\r\nB", b"20text/plain\r\nB", b" 20 text/plain\r\nB", b"7\r\n", b"20 " + b"m" * 1025 + b"\r\nB", b"x" * 1500])
+        return {"ev": [hx(times[0], bad)], "end": [end, te]}
+    ev = []
+    hcut = rng.randrange(1, len(header)) if rng.random() < 0.2 and npieces > 1 else len(header)
+    if end in ("hold", "reset") and rng.random() < 0.3:
+        # the script ends inside the header
+        ev.append(hx(times[0], header[:hcut if hcut < len(header) else rng.randrange(0, len(header))]))
+        return {"ev": [e for e in ev if e[2]], "end": [end, te]}
+    if size <= 2048:
+        body = bytes(rng.randrange(256) for _ in range(size)) if rng.random() < 0.5 else (rng.choice(TEXTS).encode() * (size // 8 + 1))[:size]
+        data = header + body
+        cuts = sorted({hcut} | {rng.randrange(len(header), len(data) + 1) for _ in range(npieces - 1)})
+        cuts = [c for c in cuts if 0 < c < len(data)][: npieces - 1]
+        prev = 0
+        for k, c in enumerate(cuts + [len(data)]):
+            ev.append(hx(times[min(k, npieces - 1)], data[prev:c]))
+            prev = c
+    else:
+        ev.append(hx(times[0], header[:hcut]))
+        if hcut < len(header):
+            ev.append(hx(times[min(1, npieces - 1)], header[hcut:]))
+        rest, k = size, 0
+        per = -(-size // npieces)
+        first = 1 if hcut < len(header) else 0     # the body follows the header
+        while rest > 0:
+            n = min(per, rest)
+            ev.append(fill(times[min(k + first, npieces - 1)], 0x41 + k, n))
+            rest -= n
+            k += 1
+    return {"ev": [e for e in ev if e[1] == "n" or e[2]], "end": [end, te]}
+
+
+def w_loc_of(locs, path):
+    for l in locs:
+        if path.startswith(l["prefix"]):
+            return l
+    return None
+
+
+def w_spec(loc, plan):
+    """what the property demands for one request, given the upstream's behaviour and the location's timeout:
+    ('relay' | 'relay-or-fail', status, meta, body, due) | ('fail', kind, reason | None, due)   (`due`: seconds after the request)"""
+    from ..sim.proxy_world import plan_stream
+
+    T = loc["timeout"] if loc["timeout"] is not None else DEFAULT_TIMEOUT
+    host = loc["upstream"].split("//", 1)[1]
+    if host.startswith("refused"):
+        return ("fail", "refused", None, 0.0)
+    if host.startswith("mute"):
+        return ("fail", "stallConnect", None, T)
+    evs, end, te = plan_stream(plan)
+    acc, hdr_t = b"", None
+    for t, b in evs:
+        acc += b
+        if hdr_t is None and b"\r\n" in acc:
+            hdr_t = t
+            upto = acc
+        if hdr_t is None and len(acc) > 2 + 1 + 1024 + 1 and t < T:
+            return ("fail", "headerTooLong", "header-too-long", t)   # oversized whatever follows
+    if hdr_t is not None and hdr_t < T:
+        early = classify_stream(upto)
+        if early[0] == "well" and not 20 <= early[1] <= 29:
+            return ("relay", early[1], early[2], b"", hdr_t)        # the fetch ends with the header of a response without body
+        if early[0] == "grey":
+            return ("relay-or-fail", early[1], b"", b"", hdr_t)
+        if early[0] == "bad" and early[1] != "body-over-cap":
+            return ("fail", REASON_KIND[early[1]], early[1], hdr_t)
+    if end == "hold" or te > T:
+        return ("fail", "stallBody" if hdr_t is not None and hdr_t < T else "stallHeader", None, T)
+    if end == "reset":
+        return ("fail", "reset", None, te)
+    cls = classify_stream(acc)
+    if cls[0] == "well":
+        return ("relay", cls[1], cls[2], cls[3], te)
+    if cls[0] == "grey":
+        return ("relay-or-fail", cls[1], b"", b"", te)
+    kind = REASON_KIND[cls[1]]
+    if cls[1] == "no-crlf" and not acc:
+        kind = "closedBeforeHeader"
+    return ("fail", kind, cls[1], te)
+
+
+class Wired(Family):
+    """Requests enter through the real GeminiServerProtocol, are routed by the Router that ServerConfig builds from a TOML
+    file (several proxy locations, possibly for the same upstream, each with its own timeout or the default one) and are
+    fetched by the real ProxyHandler/GeminiClient from a scripted network; one deployment serves all requests of a case,
+    which may overlap.  The clock is virtual, so slow upstreams and timeouts of 30 s and more are ordinary cases."""
+    name = "wired"
+    quick_n = 560
+    thorough_n = 12000
+
+    def setup(self):
+        if getattr(self, "_ready", False):
+            return
+        import tempfile
+
+        self._docroot = tempfile.mkdtemp(prefix="nv-c18-")
+        self._ready = True
+
+    # ---- generator ------------------------------------------------------------------------------
+    def gen(self, rng: random.Random, n: int):
+        up0, up1 = W_UPSTREAMS[0], W_UPSTREAMS[2]
+        page = b"20 text/gemini\r\n# a small page\n"
+        bin_head = b"20 application/octet-stream\r\n"
+
+        def loc(prefix, upstream, timeout, strip=False):
+            return {"prefix": prefix, "upstream": upstream, "timeout": timeout, "strip": strip}
+
+        def req(i, path, plan, at=0.0, lead=0.0, leave=None):
+            return {"at": at, "lead": lead, "line": f"gemini://front.example{path}?r{i}", "plan": plan, "leave": leave}
+
+        def whole(data, t):
+            return {"ev": [hx(t, data)], "end": ["close", t]}
+
+        halves = {"ev": [hx(0.0, bin_head), fill(0.0, 0x41, 131072), fill(0.6, 0x42, 131072)], "end": ["close", 0.6]}
+        det = [
+            # overlapping fetches through one location: the first to start ends while the second is in the middle of its body, and the other way round
+            {"locs": [loc("/", up0, 5.0)], "reqs": [req(0, "/page", whole(page, 0.4)), req(1, "/file", halves, at=0.2)]},
+            {"locs": [loc("/", up0, 5.0)], "reqs": [req(0, "/file", halves), req(1, "/page", whole(page, 0.1), at=0.2)]},
+            {"locs": [loc("/", up0, 5.0)], "reqs": [req(0, "/a", {"ev": [hx(0.0, b"20 text/plain\r\nab"), hx(0.3, b"cd")], "end": ["close", 0.3]}),
+                                                    req(1, "/b", {"ev": [hx(0.0, b"20 text/plain\r\nAB"), hx(0.2, b"CD"), hx(0.5, b"EF")], "end": ["close", 0.5]}, at=0.1),
+                                                    req(2, "/c", whole(b"51 Not found\r\n", 0.05), at=0.15)]},
+            # slow upstreams, location timeouts around and above 30 s (and the default one)
+            {"locs": [loc("/", up0, 45.0)], "reqs": [req(0, "/slow", whole(page, 40.0))]},
+            {"locs": [loc("/", up0, None)], "reqs": [req(0, "/stall", {"ev": [], "end": ["hold", 0.0]})]},
+            {"locs": [loc("/", up0, None)], "reqs": [req(0, "/slow", whole(page, 29.5))]},
+            {"locs": [loc("/", up0, 31.0)], "reqs": [req(0, "/slow", whole(page, 30.5))]},
+            {"locs": [loc("/", up0, 120.0)], "reqs": [req(0, "/slow", {"ev": [hx(1.0, bin_head), fill(50.0, 0x41, 5000), fill(100.0, 0x42, 5000)], "end": ["close", 100.0]})]},
+            {"locs": [loc("/", up0, 45.0)], "reqs": [req(0, "/slow", whole(page, 10.0), lead=25.0)]},
+            {"locs": [loc("/", up0, 60.0)], "reqs": [req(0, "/stall", {"ev": [hx(0.0, b"20 text/plain\r\npart")], "end": ["hold", 0.0]}, lead=10.0)]},
+            {"locs": [loc("/", "gemini://mute.example", 45.0)], "reqs": [req(0, "/x", whole(page, 0.0))]},
+            # several locations proxied to the same upstream, each with its own timeout
+            {"locs": [loc("/a/", up0, 0.5), loc("/b/", up0, 4.0)], "reqs": [req(0, "/b/x", whole(page, 1.5))]},
+            {"locs": [loc("/a/", up0, 0.5), loc("/b/", up0, 4.0)], "reqs": [req(0, "/a/x", {"ev": [], "end": ["hold", 0.0]})]},
+            {"locs": [loc("/search/", up0, 4.0), loc("/", up0 + "/", 0.5)], "reqs": [req(0, "/x", {"ev": [hx(0.1, b"20 text/plain\r\n")], "end": ["hold", 0.0]}), req(1, "/search/q", whole(page, 1.5), at=0.1)]},
+            {"locs": [loc("/a/", up0, None), loc("/b/", up0, 2.0), loc("/c/", up1, 1.0)], "reqs": [req(0, "/b/x", {"ev": [], "end": ["hold", 0.0]}), req(1, "/c/x", whole(page, 1.5)), req(2, "/a/x", whole(page, 12.0))]},
+            {"locs": [loc("/r/", "gemini://refused.example:7004", 2.0), loc("/", up0, 2.0)], "reqs": [req(0, "/r/x", whole(page, 0.0)), req(1, "/x", whole(page, 0.1))]},
+            # a client that leaves while others are served
+            {"locs": [loc("/", up0, 3.0)], "reqs": [req(0, "/a", whole(page, 1.0), leave=0.2), req(1, "/b", whole(page, 1.5), at=0.1)]},
+        ]
+        cnt = 0
+        for c in self.share(det):
+            cnt += 1
+            yield dict(c, focus=0)
+        for _ in range(max(0, n - cnt)):
+            nl = rng.choice([1, 1, 2, 2, 3])
+            prefixes = rng.sample(["/a/", "/b/", "/search/", "/api"], nl - 1) + ["/"] if rng.random() < 0.5 else rng.sample(["/a/", "/b/", "/search/", "/api"], nl)
+            shared = rng.random() < 0.65
+            base = rng.choice(W_UPSTREAMS)
+            locs = []
+            for pre in prefixes:
+                u = rng.choice([base, base, base.rstrip("/"), base.rstrip("/") + "/"]) if shared else rng.choice(W_UPSTREAMS)
+                if rng.random() < 0.04:
+                    u = rng.choice(["gemini://mute.example:7003", "gemini://refused.example:7004"])
+                locs.append(loc(pre, u, rng.choice(W_TIMEOUTS), rng.random() < 0.3))
+            nr = rng.choice([1, 2, 2, 3, 4])
+            reqs = []
+            sameloc = rng.random() < 0.5
+            l0 = rng.choice(locs)
+            for i in range(nr):
+                l = l0 if sameloc else rng.choice(locs)
+                T = l["timeout"] if l["timeout"] is not None else DEFAULT_TIMEOUT
+                path = l["prefix"] + rng.choice(["", "x", "page", "file.bin", "x/y"])
+                at = round(rng.choice([0.0, 0.0, 0.05, 0.1, 0.2, 0.3]) * T, 4) if rng.random() < 0.7 else rng.choice([0.0, 1.0, 3.0, 31.0])
+                lead = rng.choice([0.0, 0.0, 0.0, 0.0, 1.0, 10.0, 25.0, 29.5])
+                leave = round(rng.choice([0.01, 0.3, 0.9]) * T, 4) if rng.random() < 0.05 else None
+                reqs.append(req(i, path, w_plan(rng, T), at=at, lead=lead, leave=leave))
+            yield {"locs": locs, "reqs": reqs, "focus": rng.randrange(nr)}
+
+    # ---- implementation --------------------------------------------------------------------------
+    def impl(self, case):
+        from ..sim import proxy_world as W
+
+        reqs = []
+        for r in case["reqs"]:
+            l = w_loc_of(case["locs"], up_path(r["line"]))
+            T = DEFAULT_TIMEOUT if l is None or l["timeout"] is None else l["timeout"]
+            reqs.append(dict(r, wait=T + 2.5))
+        out = W.run_world(case["locs"], reqs, self._docroot)
+        return {"focus": case.get("focus", 0),
+                "results": [{"down": wdigest(x["down"]), "nwrites": x["nwrites"], "dropped": x["dropped"], "closed": x["closed"], "left": x["left"], "answered_at": x["answered_at"]}
+                            for x in out["results"]],
+                "conns": [[c["host"], c["port"], c["line"].decode("utf-8", "replace"), c["at"]] for c in out["conns"]]}
+
+    # ---- model: the request `focus` of the case ----------------------------------------------------
+    def _focus_spec(self, case):
+        r = case["reqs"][case.get("focus", 0)]
+        l = w_loc_of(case["locs"], up_path(r["line"]))
+        return None if l is None or r.get("leave") is not None else w_spec(l, r["plan"])
+
+    def model(self, case):
+        sp = self._focus_spec(case)
+        if sp is None:
+            return None
+        if sp[0] == "relay":
+            _, st, meta, body, _ = sp
+            if len(body) > 70000:
+                return None
+            return f"relay resp {st} {cps(meta.decode('utf-8'))} b:{core.hexb(body)}".replace("b:-", "n")
+        if sp[0] == "fail":
+            return f"relay fault {sp[1]} -"
+        return None
+
+    def expect(self, case, out):
+        assert out.startswith("ok "), out
+        h, b = out[3:].split(" ")
+        return {"header": "" if h == "-" else h, "body": "" if b == "-" else b, "fail": self._focus_spec(case)[0] == "fail"}
+
+    def same(self, expected, obs):
+        d = obs["results"][obs["focus"]]["down"]   # (the case is not passed to `same`: the observation carries the index)
+        if "hex" not in d:
+            return True
+        down = bytes.fromhex(d["hex"])
+        if expected["fail"]:
+            prefix = bytes.fromhex(expected["header"])[:-2]
+            return down.startswith(prefix) and down.endswith(b"\r\n") and down.count(b"\r\n") == 1
+        return down.hex() == expected["header"] + expected["body"]
+
+    # ---- direct oracle ---------------------------------------------------------------------------
+    def oracle(self, case, obs):
+        locs = case["locs"]
+        ups = set()
+        for l in locs:
+            h = l["upstream"].split("//", 1)[1].split("/", 1)[0]
+            host, _, port = h.partition(":")
+            ups.add((host.lower(), int(port) if port else 1965))
+        scene = "locations " + ", ".join(f"{l['prefix']}->{l['upstream']} timeout {'default (30 s)' if l['timeout'] is None else str(l['timeout']) + ' s'}" for l in locs)
+        flight = "; ".join(f"r{i} {up_path(r['line'])} at {r['at'] + r['lead']:g} s" for i, r in enumerate(case["reqs"]))
+        for c in obs["conns"]:
+            if (str(c[0]).lower(), c[1]) not in ups:
+                return ("redirect-followed", f"the proxy opened a connection to {c[0]}:{c[1]} ({c[2]!r}), which is not a configured upstream; {scene}")
+        for i, (r, res) in enumerate(zip(case["reqs"], obs["results"])):
+            path = up_path(r["line"])
+            l = w_loc_of(locs, path)
+            if l is None:
+                continue
+            T = l["timeout"] if l["timeout"] is not None else DEFAULT_TIMEOUT
+            sp = w_spec(l, r["plan"])
+            who = f"request r{i} {path!r} via location {l['prefix']!r} (timeout {'default 30' if l['timeout'] is None else l['timeout']} s)"
+            d = res["down"]
+            if res["dropped"] and not res["left"]:
+                return ("not-one-response", f"{who}: {res['dropped']} write(s) after the connection was closed")
+            if r.get("leave") is not None:
+                if "hex" in d and d["hex"] and parse_down(bytes.fromhex(d["hex"])) is None:
+                    return ("not-one-response", f"{who}: ill-formed bytes written to a client that left")
+                continue
+            empty = ("hex" in d and not d["hex"])
+            if not res["closed"] or empty:
+                return ("no-response", f"{who}: no complete answer within timeout + 2.5 s; {scene}; in flight: {flight}")
+            if sum(1 for c in obs["conns"] if c[2].rstrip("\r\n").endswith(f"?r{i}")) > 1:
+                return ("many-connections", f"{who}: more than one upstream connection for one request")
+            head = bytes.fromhex(d["hex"] if "hex" in d else d["head"])
+            if "hex" in d:
+                pd = parse_down(head)
+                if pd is None:
+                    return ("not-one-response", f"{who}: downstream bytes are not one well-formed response: {head[:80]!r}")
+                st, meta, body = pd
+                got = None
+            else:
+                m = re.match(rb"([1-6][0-9]) ([^\r\n]{0,1024})\r\n", head, re.S)
+                if not m:
+                    return ("not-one-response", f"{who}: downstream bytes are not one well-formed response: {head[:48]!r}")
+                st, meta, body, got = int(m.group(1)), m.group(2), None, d
+            at = res["answered_at"]
+            due = sp[-1]
+            if sp[0] == "fail":
+                if st != 43:
+                    what = f"malformed upstream response ({sp[2]})" if sp[2] else f"upstream fault {sp[1]}"
+                    return (f"malformed-relayed:{sp[2]}" if sp[2] else f"fault-not-43:{sp[1]}",
+                            f"{who}: {what} was answered {head[:60]!r} at {at} s instead of 43; {scene}; in flight: {flight}")
+                if at is not None and at > due + EPS:
+                    return ("late-response", f"{who}: the upstream fault {sp[1]} is due to be answered {due:g} s after the request, the answer {head[:40]!r} came after {at} s; {scene}; in flight: {flight}")
+                continue
+            want_st, want_meta, want_body = sp[1], sp[2], sp[3]
+            desc = f"the upstream's complete well-formed response {want_st} {want_meta[:40]!r} (+{len(want_body)} body bytes, complete {due:g} s after the request)"
+            if st == 43 and sp[0] == "relay-or-fail":
+                continue
+            if st == 43 and want_st != 43:
+                return ("well-formed-answered-43", f"{who}: {desc} was answered {head[:60]!r} at {at} s; {scene}; in flight: {flight}")
+            if st != want_st:
+                return ("relay-altered:status", f"{who}: {desc} was answered {head[:60]!r} at {at} s; {scene}; in flight: {flight}")
+            if meta != want_meta:
+                return ("relay-altered:meta", f"{who}: upstream meta {want_meta[:60]!r}, downstream {meta[:60]!r}")
+            if got is None:
+                if body != want_body:
+                    return ("relay-altered:body", f"{who}: {desc}: downstream got {len(body)} body bytes {body[:24]!r}…; {scene}; in flight: {flight}")
+            else:
+                want = wdigest(f"{want_st} ".encode() + want_meta + b"\r\n" + want_body)
+                if want != got:
+                    return ("relay-altered:body", f"{who}: {desc}: downstream got {got['len']} bytes in all, expected {want.get('len')}; {scene}; in flight: {flight}")
+            if at is not None and at > due + EPS:
+                return ("late-response", f"{who}: {desc} reached the client only after {at} s")
+        return None
+
+    def key(self, case, obs):
+        r = case["reqs"][case.get("focus", 0)]
+        l = w_loc_of(case["locs"], up_path(r["line"]))
+        if l is None:
+            return "default"
+        T = l["timeout"] if l["timeout"] is not None else DEFAULT_TIMEOUT
+        sp = w_spec(l, r["plan"])
+        ups = {x["upstream"].rstrip("/") for x in case["locs"]}
+        tcls = "default" if l["timeout"] is None else "<30" if T < 30 else ">=30"
+        spans = [(x["at"] + x["lead"], x["at"] + x["lead"] + min(w_spec(w_loc_of(case["locs"], up_path(x["line"])), x["plan"])[-1], 1e9)) for x in case["reqs"] if w_loc_of(case["locs"], up_path(x["line"]))]
+        overlap = any(a[0] < b[1] and b[0] < a[1] for i, a in enumerate(spans) for b in spans[i + 1:])
+        kind = sp[0] if sp[0] != "fail" else "fail:" + sp[1]
+        return (f"{'shared-upstream' if len(ups) < len(case['locs']) else 'own-upstream'}:T{tcls}:{kind}"
+                f":{'slow' if sp[-1] >= 30 else 'fast'}:{'overlap' if overlap else 'apart'}{':left' if r.get('leave') is not None else ''}")
+
+
+class Overlap(Family):
+    """Real TLS on loopback: several downstream requests in flight at once through ONE ProxyHandler (one location of a
+    running server), each with its own upstream behaviour - bodies of up to 256 KiB sent in pieces with pauses, so that
+    one fetch ends while another is in the middle of its body.  Every client must get its own upstream response
+    verbatim; an upstream fault of one request (reset, close inside the header) is a 43 for that request only."""
+    name = "overlap"
+    quick_n = 28
+    thorough_n = 600
+    parallel = False
+    TIMEOUT = 4.0
+
+    def setup(self):
+        from ..sim import proxy_world as W
+        from ..sim import url_upstream as U
+
+        if getattr(self, "_ready", False):
+            return
+        self.U = U
+        self.loop = U.quiet_loop()
+        self.up = self.loop.run_until_complete(W.keyed_upstream().start())
+        self._ready = True
+
+    def gen(self, rng: random.Random, n: int):
+        page = [send(b"20 text/gemini\r\n# a small page\n"), ["close"]]
+        det = [
+            {"reqs": [{"at": 0.0, "actions": [["sleep", 0.2]] + page},
+                      {"at": 0.1, "actions": [send(b"20 application/octet-stream\r\n"), ["sendn", 0x41, 131072], ["sleep", 0.3], ["sendn", 0x42, 131072], ["close"]]}]},
+            {"reqs": [{"at": 0.0, "actions": [send(b"20 application/octet-stream\r\n"), ["sendn", 0x41, 70000], ["sleep", 0.25], ["sendn", 0x42, 70000], ["close"]]},
+                      {"at": 0.08, "actions": [["sleep", 0.05]] + page}]},
+            {"reqs": [{"at": 0.0, "actions": [send(b"20 text/plain\r\nab"), ["sleep", 0.15], send(b"cd"), ["close"]]},
+                      {"at": 0.05, "actions": [send(b"20 text/plain\r\nAB"), ["sleep", 0.05], send(b"CD"), ["sleep", 0.2], send(b"EF"), ["close"]]},
+                      {"at": 0.1, "actions": [send(b"51 Not found\r\n"), ["close"]]}]},
+            {"reqs": [{"at": 0.0, "actions": [send(b"20 text/plain\r\npartial"), ["sleep", 0.1], ["reset"]]},
+                      {"at": 0.02, "actions": [send(b"20 text/plain\r\n"), ["sleep", 0.2], send(b"whole"), ["close"]]}]},
+        ]
+        cnt = 0
+        for c in self.share(det):
+            cnt += 1
+            yield c
+        for _ in range(max(0, n - cnt)):
+            reqs = []
+            for i in range(rng.choice([2, 2, 3, 4])):
+                r = rng.random()
+                st = rng.choice([20, 20, 20, 21, 31, 51, 10])
+                meta = rng.choice(METAS_2X[:8]) if 20 <= st <= 29 else {1: "Enter", 3: "gemini://elsewhere.example/x", 5: "Not found"}[st // 10]
+                header = f"{st} {meta}\r\n".encode()
+                acts = []
+                if rng.random() < 0.5:
+                    acts.append(["sleep", rng.choice([0.02, 0.05, 0.1, 0.15])])
+                if r < 0.08:
+                    acts += [send(header[:rng.randrange(1, len(header))]), ["sleep", rng.choice([0.02, 0.1])], rng.choice([["close"], ["reset"]])]
+                elif r < 0.16 and 20 <= st <= 29:
+                    acts += [send(header + b"partial body"), ["sleep", rng.choice([0.02, 0.1, 0.2])], ["reset"]]
+                else:
+                    acts.append(send(header))
+                    if 20 <= st <= 29:
+                        size = rng.choice([0, 10, 3000, 20000, 70000, 262144])
+                        pieces = rng.choice([1, 2, 2, 3])
+                        for k in range(pieces):
+                            if size:
+                                acts.append(["sendn", 0x41 + k, size // pieces])
+                            if k < pieces - 1:
+                                acts.append(["sleep", rng.choice([0.02, 0.04, 0.08, 0.15])])
+                    acts.append(["close"])
+                reqs.append({"at": round(rng.choice([0.0, 0.0, 0.02, 0.05, 0.1, 0.2]) + 0.001 * i, 3), "actions": acts})
+            yield {"reqs": reqs}
+
+    def impl(self, case):
+        from nauyaca.server.proxy import ProxyHandler
+
+        U = self.U
+        self.up.reset()
+        self.up.scripts = [r["actions"] for r in case["reqs"]]
+        handler = ProxyHandler(f"gemini://127.0.0.1:{self.up.port}", prefix="/", timeout=self.TIMEOUT)   # a fresh deployment per case
+
+        async def one(i, r):
+            if r["at"]:
+                await asyncio.sleep(r["at"])
+            return await U.downstream_request(handler.handle, f"gemini://front.example/p{i}?r{i}\r\n".encode(), self.TIMEOUT + 2.5)
+
+        async def go():
+            rs = await asyncio.gather(*[one(i, r) for i, r in enumerate(case["reqs"])])
+            self.up.release()
+            await self.up.quiesce()
+            return rs
+
+        rs = self.loop.run_until_complete(go())
+        results = []
+        for r in rs:
+            down = b"".join(bytes.fromhex(w) for w in r["writes"])
+            results.append({"down": wdigest(down), "nwrites": len(r["writes"]), "dropped": len(r["dropped"]), "closed": r["closed"]})
+        return {"results": results, "up_conns": self.up.connections,
+                "up_lines": sorted(bytes.fromhex(e["line"]).decode("utf-8", "replace").replace(str(self.up.port), "$U") for e in self.up.log)}
+
+    def oracle(self, case, obs):
+        n = len(case["reqs"])
+        flight = "; ".join(f"r{i} from {r['at']} s" for i, r in enumerate(case["reqs"]))
+        if obs["up_conns"] > n:
+            return ("many-connections", f"{obs['up_conns']} upstream connections for {n} requests")
+        for i, (r, res) in enumerate(zip(case["reqs"], obs["results"])):
+            data, end = stream_of(r["actions"])
+            cls = classify_stream(data)
+            who = f"request r{i} of {n} overlapping requests through one location ({flight})"
+            d = res["down"]
+            if res["dropped"]:
+                return ("not-one-response", f"{who}: {res['dropped']} write(s) after the connection was closed")
+            if not res["closed"] or ("hex" in d and not d["hex"]):
+                return ("no-response", f"{who}: no complete answer within {self.TIMEOUT} s + 2.5 s")
+            head = bytes.fromhex(d["hex"] if "hex" in d else d["head"])
+            m = re.match(rb"([1-6][0-9]) ([^\r\n]{0,1024})\r\n", head, re.S)
+            if not m or ("hex" in d and parse_down(head) is None):
+                return ("not-one-response", f"{who}: downstream bytes are not one well-formed response: {head[:60]!r}")
+            st = int(m.group(1))
+            faulty = end == "reset" and not (cls[0] == "well" and not 20 <= cls[1] <= 29)
+            if faulty or cls[0] == "bad":
+                if st != 43:
+                    return ("fault-not-43:" + ("reset" if faulty else cls[1]), f"{who}: the upstream fault was answered {head[:60]!r} instead of 43")
+                continue
+            if cls[0] == "grey" and st == 43:
+                continue
+            want = f"{cls[1]} ".encode() + cls[2] + b"\r\n" + cls[3]
+            if st == 43 and cls[1] != 43:
+                return ("well-formed-answered-43", f"{who}: the upstream's complete well-formed response {want[:40]!r} ({len(want)} bytes) was answered {head[:70]!r}")
+            if wdigest(want) != d:
+                got = len(bytes.fromhex(d["hex"])) if "hex" in d else d["len"]
+                sig = "relay-altered:status" if st != cls[1] else "relay-altered:meta" if m.group(2) != cls[2] else "relay-altered:body"
+                return (sig, f"{who}: the upstream sent {len(want)} bytes {want[:40]!r}… (a complete well-formed response), the client received {got} bytes {head[:40]!r}…")
+        return None
+
+    def key(self, case, obs):
+        sizes = [len(stream_of(r["actions"])[0]) for r in case["reqs"]]
+        faults = sum(1 for r in case["reqs"] if stream_of(r["actions"])[1] == "reset")
+        big = sum(1 for s in sizes if s > 16384)
+        return f"n={len(case['reqs'])}:big={min(big, 2)}:faults={min(faults, 2)}"
+
+
+def wdigest(b: bytes):
+    if len(b) <= 2048:
+        return {"hex": b.hex()}
+    return {"len": len(b), "sha1": hashlib.sha1(b).hexdigest(), "head": b[:1100].hex()}
+
+
+def up_path(line: str) -> str:
+    """path of a request line gemini://host/path?query"""
+    rest = line.split("//", 1)[1]
+    p = "/" + rest.split("/", 1)[1] if "/" in rest else "/"
+    return p.split("?", 1)[0]
+
+
+FAMILIES = [Relay(), Wired(), Overlap()]
 
 
 def extract_extra():
